@@ -156,6 +156,32 @@ def judge_malformed(texts):
     return dict(texts=texts, reason='a reference whose text denotes no existing path evaluated without an error (it silently aliased another node)')
 
 
+def judge_nested(texts):
+    """a !call target that itself builds and evaluates ANOTHER config through the public API while the outer evaluation is in progress:
+    references evaluated after it must still alias the objects produced before it"""
+    from awesomeyaml.config import Config
+    vm = evalcorr.install_vmod()
+
+    def nb(*a, **k):
+        Config.build('{inner: {v: [1, 2]}, r: !xref inner, c: !call:vmod.g {x: !xref inner.v}}', raw_yaml=True, filename='<nested>')
+        return 'nested-done'
+    nb.__module__ = 'vmod'
+    vm.nb = nb
+    k, root = oracles.build(texts)
+    if k != 'ok':
+        return dict(texts=texts, reason='unexpected merge failure', got=k)
+    try:
+        cfg = base.with_watchdog(lambda: Config(root))
+    except base.Hang:
+        return dict(texts=texts, reason='evaluation does not terminate')
+    except Exception as e:
+        return dict(texts=texts, reason='valid references were reported as errors after a nested evaluation', error=type(e).__name__ + ': ' + str(e)[:200])
+    bad = [n for n in ('early', 'late', 'late_chain', 'late_nested') if n in cfg and not (cfg[n] is (cfg['box']['shared'] if n == 'late_nested' else cfg['shared']))]
+    if bad:
+        return dict(texts=texts, reason='references evaluated after a nested evaluation do not alias their (already evaluated) target', names=bad)
+    return None
+
+
 def run(rep, tier, rng):
     rep.rule = ('single- and two-document configs with !xref/!ref over their own paths: forward and backward references, chains, fan-in, references into and out of lists, '
                 'mappings and call arguments, dangling references, self-references, cycles and tails leading into cycles. non-trivial = at least 2 references; distinct = hash')
@@ -168,6 +194,10 @@ def run(rep, tier, rng):
     for t in inputs:
         rep.case('\n'.join(t), sum(x.count('!xref') + x.count('!ref') for x in t) >= 2, sample=t)
     base.run_oracle(rep, 'C09', 'aliasing / error / termination vs reference graph', inputs, judge)
+    nested = [["{shared: {a: [1, 2]}, early: !xref shared, n: !call vmod.nb, late: !xref shared, hop: !xref late, late_chain: !xref hop}"],
+              ["{box: {shared: [1, {k: 2}]}, shared: {z: 1}, early: !xref shared, n: !call:vmod.nb {x: 1}, late_nested: !xref box.shared, late: !xref shared}"],
+              ["{shared: [0]}", "{n: !call vmod.nb, late: !xref shared}"]]
+    base.run_oracle(rep, 'C09', 'references across a nested evaluation (a call target that builds another config)', nested, judge_nested, show=lambda t: dict(nested=True, texts=t))
     base.run_oracle(rep, 'C09', 'references with a malformed tail denote no node and are reported', [gen_malformed(rng) for _ in range(80 if tier == 'quick' else 1500)],
                     judge_malformed, show=lambda t: dict(malformed=True, texts=t))
 
@@ -175,7 +205,10 @@ def run(rep, tier, rng):
 def replay(data):
     r = data['replay']
     if 'input' in r:
-        f = judge_malformed(r['input']['texts']) if isinstance(r['input'], dict) and r['input'].get('malformed') else judge(r['input'])
+        if isinstance(r['input'], dict) and r['input'].get('nested'):
+            f = judge_nested(r['input']['texts'])
+        else:
+            f = judge_malformed(r['input']['texts']) if isinstance(r['input'], dict) and r['input'].get('malformed') else judge(r['input'])
         print('replay:', 'property FAILS' if f else 'property holds', f or '')
         return 1 if f else 0
     print('no input to replay; broken obligations:', r)
